@@ -8,7 +8,7 @@ import json, os, subprocess, sys, time
 V = os.path.dirname(os.path.dirname(os.path.abspath(__file__)))
 PY = os.path.join(V, ".venv/bin/python")
 EXTRA = {"C05_m2": ["c04"], "C10_m1": ["c04"], "C10_m2": ["c04"], "C11_m1": ["c12"], "C11_m2": ["c12"], "C16_m2": ["c06"],
-         "C10_m4": ["c05"], "C10_m3": ["c04"]}
+         "C10_m4": ["c05"], "C10_m3": ["c04"], "C05_m6": ["c03"], "C08_m6": ["c09"], "C02_m6": ["c13"]}
 
 
 def sh(*a, **kw):
@@ -18,7 +18,7 @@ def sh(*a, **kw):
 def main():
     global TARGET
     if not os.environ.get("SEED_IN_PLACE"):
-        TARGET = "/tmp/seedwt"
+        TARGET = "/tmp/seedwt_%d" % os.getpid()
         sh("git", "-C", "/repo", "worktree", "remove", "--force", TARGET)
         if sh("git", "-C", "/repo", "worktree", "add", "--detach", TARGET, "HEAD").returncode != 0:
             sys.exit("cannot create scratch worktree")
@@ -35,14 +35,16 @@ TARGET = "/repo"
 def run():
     ids = sys.argv[1:] or sorted(d for d in os.listdir(os.path.join(V, "seeded")) if os.path.isdir(os.path.join(V, "seeded", d)))
     path = os.path.join(V, "seeded", "MATRIX.json")
-    matrix = json.load(open(path)) if os.path.exists(path) else {}
+    matrix = {}
     env = dict(os.environ, VERIF_TASK_TIMEOUT=os.environ.get("VERIF_TASK_TIMEOUT", "900"), VERIF_EVIDENCE_DIR="/tmp/seed_evidence", QUARA_REPO=TARGET)
     for mid in ids:
         patch = os.path.join(V, "seeded", mid, "patch.diff")
         if sh("git", "-C", TARGET, "diff", "--quiet").returncode != 0:
             sys.exit(TARGET + " has local changes")
         if sh("git", "-C", TARGET, "apply", patch).returncode != 0:
-            matrix[mid] = {"error": "patch does not apply"}
+            cur = json.load(open(path)) if os.path.exists(path) else {}
+            cur[mid] = {"error": "patch does not apply"}
+            json.dump(cur, open(path, "w"), indent=1, sort_keys=True)
             continue
         row = {}
         try:
@@ -61,8 +63,10 @@ def run():
                 print(mid, chk, "exit", r.returncode, f"{time.time() - t0:.0f}s", flush=True)
         finally:
             sh("git", "-C", TARGET, "checkout", "--", ".")
-        matrix[mid] = row
-        json.dump(matrix, open(path, "w"), indent=1, sort_keys=True)
+        # several runs may be active at once: re-read, update this row, write back
+        cur = json.load(open(path)) if os.path.exists(path) else {}
+        cur[mid] = row
+        json.dump(cur, open(path, "w"), indent=1, sort_keys=True)
 
 
 if __name__ == "__main__":
